@@ -71,6 +71,12 @@ CLAIMED = {
               "unit vectors (num_trace_samples = n): the estimator has zero variance and must equal ln det exactly (where the probes are drawn by a "
               "preconditioner or per sub-block only shape / finiteness are decided)."),
         design="5/C05"),
+    "C06": dict(engine="E2-exact-linalg-replay", design="5/C06",
+                technique="TLA+ enumeration (MC_C06) of class x query x method x thresholds x scale with the algebraic relation each factorization must satisfy against the exact matrix; replay into the library",
+                text="Factorization relations against the exact matrix: TLC enumerates PSD class x batch x query (every method argument) x "
+                     "thresholds on both sides of n x operator scale and states the relation each result must satisfy (L L^T, R^T R, R R^T, "
+                     "R R^T A = I, Q^T Q = I and Q diag(w) Q^T = A, U S V^T); Lanczos-type results must equal the orthogonal compression of A "
+                     "onto their own span; truncated pivoted Cholesky must under-approximate."),
     "C12": dict(
         engine="E3-history-machines",
         technique="TLA+ model of per-object memoize caches over query/derivation/settings histories (key discipline from the live classes), exhaustive TLC histories replayed with per-step cache-validity checks",
@@ -128,6 +134,11 @@ CLAIMED = {
               "factor of exactly A + j_b I, triangularity/orientation, exception types, warnings, input immutability; the recorded "
               "cholesky_ex attempts must satisfy the per-member trace conditions."),
         design="5/C16", note="TLC 1.8; exactness of IEEE Cholesky pivots' signs on the integer members; harness/checks/c16.py"),
+    "C18": dict(engine="E2-exact-linalg-replay", design="5/C18",
+                technique="TLA+ enumeration (MC_C06, relation cov) of sampler x class x batch x thresholds; the sampler's exact Jacobian is recovered by replacing torch.randn with one-hot noise and compared with the exact covariance",
+                text="Sampling made deterministic: torch.randn is replaced by one-hot noise, which recovers the sampler's linear map J exactly; "
+                     "J J^T must equal the exact covariance per batch member, and cross-sample / cross-batch blocks must vanish; shapes as "
+                     "documented; contour-integral-quadrature sampler included."),
     "C19": dict(
         engine="E1-denote-replay",
         technique="TLA+ validity predicates (matmul / broadcast / expand / index range) enumerate every invalid operand for every class; expectation 'raises' replayed, spec verdict cross-checked against torch",
